@@ -481,6 +481,9 @@ def _replay(case, clause, model, seed):
     rank, dtype, spacing, d, csv = TimeCorr.parse(case)
     rng = random.Random(seed)
     nrng = np.random.default_rng(seed)
+    dsym = d == "sym"
+    if dsym:
+        d = model.get("d") if isinstance(model.get("d"), int) and 1 <= model.get("d") <= 9 else 5
 
     def mk_snaps(ts, N):
         z = np.zeros((N, 2))
@@ -562,7 +565,9 @@ def _replay(case, clause, model, seed):
         return s
 
     tried = 0
-    for trial in range(60):
+    for trial in range(200):
+        if dsym and trial > 0:
+            d = [1, 2, 3, 5, 7][trial % 5]
         T, N, ts, dt, Aarr = sample(trial == 0, trial)
         snaps = mk_snaps(ts, N)
         keepA = Aarr.copy()
